@@ -11,6 +11,7 @@ import (
 	"strings"
 	"sync"
 	"sync/atomic"
+	"syscall"
 	"testing"
 	"testing/synctest"
 	"time"
@@ -396,6 +397,13 @@ func (b *blockingWriter) WriteHeader(code int) {
 	b.ResponseRecorder.WriteHeader(code)
 }
 
+// brokenWriter is the response writer of a connection whose client has gone away: every write fails.
+type brokenWriter struct{ h http.Header }
+
+func (b *brokenWriter) Header() http.Header       { return b.h }
+func (b *brokenWriter) WriteHeader(int)           {}
+func (b *brokenWriter) Write([]byte) (int, error) { return 0, syscall.EPIPE }
+
 // getLimitWithTimeout: see the call site.
 func getLimitWithTimeout(sub *vf.Sub, C, round int) bool {
 	dir := sysrun.ScratchDir("C18", "conct", C*1000+round)
@@ -513,7 +521,7 @@ func getLimitWithTimeout(sub *vf.Sub, C, round int) bool {
 // TestGetConcurrencyLimit: deterministic, no wall clock decides.
 func TestGetConcurrencyLimit(t *testing.T) {
 	run := vf.Cur()
-	sub := run.Sub("get-concurrency", "real app with GET concurrency limit C in {1,2,3,5}: C GET requests are held in flight by response writers that block until released; every further GET (API routes and /-/healthy, /-/ready, /metrics alike: one pool) must be refused with 503 and counted by alertmanager_http_concurrency_limit_exceeded_total, POSTs of alerts and silences must succeed meanwhile, the in-flight gauge must read C, and after release all held requests complete with 200 and the gauge returns to 0; the same with a web timeout configured (requests behind http.TimeoutHandler; GETs of /silences held inside the handler by a blocked gossip callback); also run with real parallel requests under the race detector; non-trivial = every case; distinct by (C, round)", 8)
+	sub := run.Sub("get-concurrency", "real app with GET concurrency limit C in {1,2,3,5}: C GET requests are held in flight by response writers that block until released; every further GET (API routes and /-/healthy, /-/ready, /metrics alike: one pool) must be refused with 503 and counted by alertmanager_http_concurrency_limit_exceeded_total, POSTs of alerts and silences must succeed meanwhile, the in-flight gauge must read C, and after release all held requests complete with 200 and the gauge returns to 0; then 3C GETs whose response write fails (client gone: the API responders panic, the caller recovers like net/http) must leave the gauge at 0 and the next C+1 GETs admitted; the same with a web timeout configured (requests behind http.TimeoutHandler; GETs of /silences held inside the handler by a blocked gossip callback); also run with real parallel requests under the race detector; non-trivial = every case; distinct by (C, round)", 8)
 	for _, C := range []int{1, 2, 3, 5} {
 		for round := 0; round < run.N(4, 200)/4+1; round++ {
 			dir := sysrun.ScratchDir("C18", "conc", C*1000+round)
@@ -578,6 +586,30 @@ func TestGetConcurrencyLimit(t *testing.T) {
 			}
 			if g := in.Metric("alertmanager_http_requests_in_flight", nil); g != 0 {
 				sub.Violation("in-flight-gauge-not-back-to-zero", map[string]any{"limit": C, "gauge": g})
+			}
+			// requests whose client has gone away while the response is written: the write fails, the generated
+			// API responders panic on purpose ("let the recovery middleware deal with this") and net/http
+			// recovers per connection - the slot of such a request must be free again afterwards
+			aborted := 0
+			for k := 0; k < 3*C; k++ {
+				func() {
+					defer func() {
+						if recover() != nil {
+							aborted++
+						}
+					}()
+					in.VI.Handler().ServeHTTP(&brokenWriter{h: http.Header{}}, httptest.NewRequest("GET", []string{"/api/v2/alerts", "/api/v2/silences", "/api/v2/alerts/groups"}[k%3], nil))
+				}()
+			}
+			sub.Count("gets_aborted_by_a_failing_response_write", int64(aborted))
+			if g := in.Metric("alertmanager_http_requests_in_flight", nil); g != 0 {
+				sub.Violation("in-flight-gauge-not-back-to-zero", map[string]any{"limit": C, "gauge": g, "after": fmt.Sprintf("%d GETs whose response write failed (handler panicked, as after a client disconnect)", aborted)})
+			}
+			for k := 0; k <= C; k++ {
+				if code, _ := in.Do("GET", "/api/v2/status", nil); code != 200 {
+					sub.Violation("get-refused-although-nothing-is-in-flight", map[string]any{"limit": C, "code": code, "after": fmt.Sprintf("%d GETs whose response write failed (handler panicked, as after a client disconnect)", aborted)})
+					break
+				}
 			}
 			// real parallel requests (race detector pass): the sum of 200s and 503s must be the number issued
 			var mu sync.Mutex
